@@ -372,6 +372,13 @@ func genSpec(rt *rapid.T) specCase {
 			if ordered && rapid.Bool().Draw(rt, "near") {
 				op.Tag = tag - 2
 			}
+			if rapid.IntRange(0, 4).Draw(rt, "boundary") == 0 {
+				// the tag of a write itself: that write is not older than the tag
+				op.Tag = 4 * int32(rapid.IntRange(1, 40).Draw(rt, "btag"))
+				if ordered {
+					op.Tag = tag - 4*int32(rapid.IntRange(0, 2).Draw(rt, "bback"))
+				}
+			}
 		}
 		c.Ops = append(c.Ops, op)
 	}
